@@ -105,3 +105,13 @@ pub fn time(v: f64, from: &TimeUnit, to: &TimeUnit) -> f64 {
 pub fn speed(v: f64, from: &SpeedUnit, to: &SpeedUnit) -> f64 {
     v * speed_mps(from) / speed_mps(to)
 }
+
+/// great-circle distance in metres between two WGS84 coordinates (degrees), in double precision on a sphere of radius
+/// 6 371 000 m - the reference for oracles (the library's single-precision haversine is not used there)
+pub fn great_circle_m(ax: f64, ay: f64, bx: f64, by: f64) -> f64 {
+    let (lat1, lat2) = (ay.to_radians(), by.to_radians());
+    let d_lat = lat2 - lat1;
+    let d_lon = (bx - ax).to_radians();
+    let a = (d_lat / 2.0).sin().powi(2) + (d_lon / 2.0).sin().powi(2) * lat1.cos() * lat2.cos();
+    6_371_000.0 * 2.0 * a.sqrt().asin()
+}
